@@ -142,3 +142,22 @@ def _sk_sign(eng, st, args, kwargs):
     st.assume(made(recv[2], eng.term(msg, BYTES, st), sig))
     st.assume(z3.Length(sig) == 64)
     yield st, V(sig, BYTES)
+
+
+@EX.external('random.Random.choice')
+def _random_choice(eng, st, args, kwargs):
+    """random.choice(seq): some element of a non-empty sequence (IndexError on an empty one)"""
+    seq = [a for a in args if not (hasattr(a, '__class__') and a.__class__.__name__ == 'Random')][-1]
+    from pyvc.engine import Ref
+    if isinstance(seq, Ref):
+        seq = eng.lift(seq, st)
+    if not (isinstance(seq, V) and seq.ty.kind == 'list'):
+        raise Outside("random.choice of %r" % (seq,))
+    n = z3.Length(seq.t)
+    s_e = st.fork().assume(n == 0, decision=True)
+    if eng.feasible(s_e):
+        yield s_e, Raised(ExcVal(IndexError))
+    st.assume(n > 0, decision=True)
+    k = eng.fresh_term('choice', z3.IntSort(), st)
+    st.assume(z3.And(k >= 0, k < n))
+    yield st, V(seq.t[k], seq.ty.args[0])
